@@ -18,7 +18,11 @@
  * consolidated configuration is announced through the push-configuration callback, so the "valid response" reaches
  * the caller through the callback.  The same monitor applies to the failures: once a valid configuration has been
  * received, failures of other endpoints are notices; the user handle itself fails only if every endpoint failed. */
+#if defined(KIND) && KIND == 2
+#define HN "C15.H2"
+#else
 #define HN "C15.H1"
+#endif
 #define C13_VERIFY_OK 1
 #define C13_CREDENTIALS_OK 1
 #include "verif.h"
